@@ -27,7 +27,7 @@ class Check(RuntimeCheck):
         from .macro_common import MacroCheck
         class Generated(MacroCheck):
             prop = 'C18'
-            case_prefixes = ('own.default', 'own.m2', 'rc.default.shared', 'arc.default.shared', 'ref.default', 'mut.default', 'generic.instances-distinct')
+            case_prefixes = ('own.default', 'own.m2', 'rc.default.shared', 'arc.default.shared', 'ref.default', 'mut.default', 'generic.instances')
             facts_of_interest = r'$^'
         Generated().explore_into(rep, tier, seed, ir=False, merge=True)
         # "clones share everything" also when the routes are taken at the same time: every schedule of two / three clones on other
